@@ -180,7 +180,7 @@ PROPS['C04'] = dict(
 
 PROPS['C05'] = dict(
     modules=['contracts.dtw_c', 'contracts.paths_py'],
-    contracts=['dtw.best_path', 'dtw.best_path#wf', 'dtw.warping_path'],
+    contracts=['dtw.best_path', 'dtw.best_path#wf', 'dtw.best_path#cost', 'dtw.warping_path', 'dtw.warping_path#cost'],
     lemmas=['WNonneg'],
     bounded=dict(_CM, **{'path-validity-native-sweep': lambda run: _native_sweep(
         'paths_native.py',
@@ -196,17 +196,22 @@ PROPS['C05'] = dict(
                'dtw.warping_path is proved on top of the contracts of dtw.warping_paths (C04) and dtw.best_path: for all lengths, '
                'windows, penalties, max_step, both inner distances, whenever a path exists the result is a contiguous monotone path '
                'from (0, 0) to (r-1, c-1) whose cells all have finite accumulated cost (so inside the window band and within '
-               'max_step). All other routes (psi relaxation, C engine, compact matrices, custom start cell) and the clause '
-               '"accumulated cost equals the distance" are bounded sweeps of the real routines only.',
+               'max_step). Cost clause: on a matrix obeying the recurrence for some point-cost function and the penalty handed '
+               'to best_path, every link of the path is exact (cell = point cost + value of the cell it came from, + penalty for a '
+               'non-diagonal step); for dtw.warping_path with the Euclidean inner distance and no penalty this gives '
+               'W(cell k+1) = Cost(cell k+1) + W(cell k) along the whole path and W(1,1) = Cost(0,0): the cost accumulated along '
+               'the path is the reported distance. All other routes (psi relaxation, C engine, compact matrices, custom start '
+               'cell) and the cost clause for the squared inner distance or with a penalty are bounded sweeps only.',
     level_note='Trusted: dvc Python semantics incl. list append / pop / reverse and np.argmin = first minimum (A1, A3), order axioms '
                'of non-NaN doubles, IEEE facts sqrt(x) >= 0, sqrt monotone, x + 0 == x, adding a non-negative term does not decrease, '
                'solvers (A7). Lemma WNonneg (W >= 0) by induction on the anti-diagonal. Genuine defects recorded by the sweep: '
                'KF-C05-1..3 (psi relaxation, Python penalty ignored by warping_path, dropped inner_dist in warping_path_fast).',
     trusted_base=[PY_A1, A3_NUMPY, A7],
     assumptions=[PY_A1, A3_NUMPY, A7, 'bounded part: lengths <= 6 (native), <= 4/5 (chains)'],
-    not_decided=['accumulated cost along the path == distance: bounded only (needs the argmin of square-rooted cells to be the argmin '
-                 'of the cells, which fails at rounding level for the squared inner distance, and the penalty that dtw.warping_path '
-                 'does not pass on: KF-C05-2)',
+    not_decided=['accumulated cost along the path == distance for the squared inner distance (the traceback runs on square-rooted '
+                 'cells, whose first minimum need not be the first minimum of the cells) and with a penalty (dtw.warping_path does not '
+                 'pass it on: KF-C05-2): bounded only; the telescoping of the exact links into one sum is a one-line induction stated '
+                 'in DESIGN 10.11, not machine-checked',
                  'psi-relaxed start / end cells and the -1 marks: bounded only', 'C traceback routines dtw_best_path*: bounded only '
                  '(sanitizer chains + native sweep)', 'dtw_ndim.warping_path, custom start cell (row / col): bounded only'],
     technique='sidecar contracts on the real dtw.best_path and dtw.warping_path (modular: callee contracts at the two calls), VCs '
